@@ -7,20 +7,20 @@ answer of the search that violates one clause of `answerOk`, on which the phase 
 namespace ESV.Decomp
 open ESV.Beh
 
-def bv (i : Nat) (it : Item) : BVertex := ⟨some i, .item it, none, [], [], false⟩
+def bv (i : Nat) (it : Item) : BVertex := ⟨some i, .item it, none, [], [], false, none, []⟩
 
 /-- `if (Branch) { Bar } else { Foo }`, both branches running into the SAME Jump (vertex 3) in front of the end
 label (vertex 4): the Jump has two in-edges -/
 def cexTwoIn : BGraph :=
   { vs := [bv 0 (.ljump ⟨0, "Branch", []⟩ 7 false), bv 1 (.op ⟨1, "Foo", []⟩), bv 2 (.op ⟨2, "Bar", []⟩),
            bv 3 (.ljump ⟨3, "Jump", []⟩ 8 false), bv 4 (.label 8), bv 5 (.op ⟨4, "Baz", []⟩)],
-    es := [⟨0, 1, 0, false, false⟩, ⟨0, 2, 1, false, false⟩, ⟨1, 3, 0, false, false⟩, ⟨2, 3, 0, false, false⟩,
-           ⟨3, 4, 1, false, false⟩, ⟨4, 5, 0, false, false⟩] }
+    es := [⟨0, 1, 0, false, false, []⟩, ⟨0, 2, 1, false, false, []⟩, ⟨1, 3, 0, false, false, []⟩, ⟨2, 3, 0, false, false, []⟩,
+           ⟨3, 4, 1, false, false, []⟩, ⟨4, 5, 0, false, false, []⟩] }
 
 def cexTwoInAfter : BGraph :=
-  { vs := [⟨some 0, .item (.ljump ⟨0, "Branch", []⟩ 7 false), some 0, [], [], false⟩, bv 1 (.op ⟨1, "Foo", []⟩),
-           bv 2 (.op ⟨2, "Bar", []⟩), ⟨some 4, .item (.label 8), none, [0], [], false⟩, bv 5 (.op ⟨4, "Baz", []⟩)],
-    es := [⟨0, 1, 0, false, true⟩, ⟨0, 2, 1, false, false⟩, ⟨3, 4, 0, false, false⟩, ⟨1, 3, 0, false, false⟩] }
+  { vs := [⟨some 0, .item (.ljump ⟨0, "Branch", []⟩ 7 false), some 0, [], [], false, none, []⟩, bv 1 (.op ⟨1, "Foo", []⟩),
+           bv 2 (.op ⟨2, "Bar", []⟩), ⟨some 4, .item (.label 8), none, [0], [], false, none, []⟩, bv 5 (.op ⟨4, "Baz", []⟩)],
+    es := [⟨0, 1, 0, false, true, []⟩, ⟨0, 2, 1, false, false, []⟩, ⟨3, 4, 0, false, false, []⟩, ⟨1, 3, 0, false, false, []⟩] }
 
 /-- a second in-edge of the by-passed Jump is cut by the final deletion: `_reconnect` moves `in_edges[0]` only.  On
 the answer "both branches reach the end via the edge Jump→label" the path through `Bar` loses `Baz`. -/
@@ -40,12 +40,12 @@ Jump -/
 def cexStart : BGraph :=
   { vs := [bv 0 (.ljump ⟨0, "Jump", []⟩ 8 false), bv 1 (.op ⟨1, "Foo", []⟩), bv 2 (.label 8),
            bv 3 (.ljump ⟨2, "Branch", []⟩ 9 false), bv 4 (.op ⟨3, "Bar", []⟩)],
-    es := [⟨0, 2, 1, false, false⟩, ⟨2, 3, 0, false, false⟩, ⟨3, 4, 0, false, false⟩, ⟨3, 0, 1, false, false⟩] }
+    es := [⟨0, 2, 1, false, false, []⟩, ⟨2, 3, 0, false, false, []⟩, ⟨3, 4, 0, false, false, []⟩, ⟨3, 0, 1, false, false, []⟩] }
 
 def cexStartAfter : BGraph :=
-  { vs := [bv 1 (.op ⟨1, "Foo", []⟩), ⟨some 2, .item (.label 8), none, [0], [], false⟩,
-           ⟨some 3, .item (.ljump ⟨2, "Branch", []⟩ 9 false), some 0, [], [], false⟩, bv 4 (.op ⟨3, "Bar", []⟩)],
-    es := [⟨1, 2, 0, false, false⟩, ⟨2, 3, 0, false, true⟩, ⟨2, 1, 1, false, false⟩] }
+  { vs := [bv 1 (.op ⟨1, "Foo", []⟩), ⟨some 2, .item (.label 8), none, [0], [], false, none, []⟩,
+           ⟨some 3, .item (.ljump ⟨2, "Branch", []⟩ 9 false), some 0, [], [], false, none, []⟩, bv 4 (.op ⟨3, "Bar", []⟩)],
+    es := [⟨1, 2, 0, false, false, []⟩, ⟨2, 3, 0, false, true, []⟩, ⟨2, 1, 1, false, false, []⟩] }
 
 /-- the by-passed Jump must not be the vertex the routine starts with: after the deletion the routine starts with
 whatever stood behind it -/
@@ -65,15 +65,15 @@ is "the" fall-through edge is decided by igraph's incident order (lowest target 
 def cexLevels : BGraph :=
   { vs := [bv 0 (.ljump ⟨0, "Branch", []⟩ 7 false), bv 1 (.op ⟨1, "Foo", []⟩), bv 2 (.ljump ⟨2, "Jump", []⟩ 8 false),
            bv 3 (.op ⟨3, "Qux", []⟩), bv 4 (.op ⟨4, "Bar", []⟩), bv 5 (.label 8), bv 6 (.op ⟨5, "Baz", []⟩)],
-    es := [⟨0, 1, 0, false, false⟩, ⟨0, 4, 1, false, false⟩, ⟨1, 2, 0, false, false⟩, ⟨1, 3, 0, false, false⟩,
-           ⟨2, 5, 1, false, false⟩, ⟨4, 5, 0, false, false⟩, ⟨5, 6, 0, false, false⟩] }
+    es := [⟨0, 1, 0, false, false, []⟩, ⟨0, 4, 1, false, false, []⟩, ⟨1, 2, 0, false, false, []⟩, ⟨1, 3, 0, false, false, []⟩,
+           ⟨2, 5, 1, false, false, []⟩, ⟨4, 5, 0, false, false, []⟩, ⟨5, 6, 0, false, false, []⟩] }
 
 def cexLevelsAfter : BGraph :=
-  { vs := [⟨some 0, .item (.ljump ⟨0, "Branch", []⟩ 7 false), some 0, [], [], false⟩, bv 1 (.op ⟨1, "Foo", []⟩),
-           bv 3 (.op ⟨3, "Qux", []⟩), bv 4 (.op ⟨4, "Bar", []⟩), ⟨some 5, .item (.label 8), none, [0], [], false⟩,
+  { vs := [⟨some 0, .item (.ljump ⟨0, "Branch", []⟩ 7 false), some 0, [], [], false, none, []⟩, bv 1 (.op ⟨1, "Foo", []⟩),
+           bv 3 (.op ⟨3, "Qux", []⟩), bv 4 (.op ⟨4, "Bar", []⟩), ⟨some 5, .item (.label 8), none, [0], [], false, none, []⟩,
            bv 6 (.op ⟨5, "Baz", []⟩)],
-    es := [⟨0, 1, 0, false, true⟩, ⟨0, 3, 1, false, false⟩, ⟨1, 2, 0, false, false⟩, ⟨3, 4, 0, false, false⟩,
-           ⟨4, 5, 0, false, false⟩, ⟨1, 4, 0, false, false⟩] }
+    es := [⟨0, 1, 0, false, true, []⟩, ⟨0, 3, 1, false, false, []⟩, ⟨1, 2, 0, false, false, []⟩, ⟨3, 4, 0, false, false, []⟩,
+           ⟨4, 5, 0, false, false, []⟩, ⟨1, 4, 0, false, false, []⟩] }
 
 /-- `branchesStructOk` (edges of one source and level have one target) is needed: the answer is fine (`answerOk`), the
 moved edge now leads to a vertex with a higher id than `Qux`, and `Foo` falls through to `Qux` instead -/
@@ -93,15 +93,15 @@ def cexTarget : BGraph :=
   { vs := [bv 0 (.ljump ⟨0, "Branch", []⟩ 7 false), bv 1 (.op ⟨1, "Foo", []⟩), bv 2 (.ljump ⟨2, "Jump", []⟩ 9 false),
            bv 3 (.op ⟨3, "Bar", []⟩), bv 4 (.label 8), bv 5 (.op ⟨4, "Baz", []⟩), bv 6 (.label 9),
            bv 7 (.op ⟨5, "Zed", []⟩)],
-    es := [⟨0, 1, 0, false, false⟩, ⟨0, 3, 1, false, false⟩, ⟨1, 2, 0, false, false⟩, ⟨2, 6, 1, false, false⟩,
-           ⟨3, 4, 0, false, false⟩, ⟨4, 5, 0, false, false⟩, ⟨6, 7, 0, false, false⟩] }
+    es := [⟨0, 1, 0, false, false, []⟩, ⟨0, 3, 1, false, false, []⟩, ⟨1, 2, 0, false, false, []⟩, ⟨2, 6, 1, false, false, []⟩,
+           ⟨3, 4, 0, false, false, []⟩, ⟨4, 5, 0, false, false, []⟩, ⟨6, 7, 0, false, false, []⟩] }
 
 def cexTargetAfter : BGraph :=
-  { vs := [⟨some 0, .item (.ljump ⟨0, "Branch", []⟩ 7 false), some 0, [], [], false⟩, bv 1 (.op ⟨1, "Foo", []⟩),
-           bv 3 (.op ⟨3, "Bar", []⟩), ⟨some 4, .item (.label 8), none, [0], [], false⟩, bv 5 (.op ⟨4, "Baz", []⟩),
+  { vs := [⟨some 0, .item (.ljump ⟨0, "Branch", []⟩ 7 false), some 0, [], [], false, none, []⟩, bv 1 (.op ⟨1, "Foo", []⟩),
+           bv 3 (.op ⟨3, "Bar", []⟩), ⟨some 4, .item (.label 8), none, [0], [], false, none, []⟩, bv 5 (.op ⟨4, "Baz", []⟩),
            bv 6 (.label 9), bv 7 (.op ⟨5, "Zed", []⟩)],
-    es := [⟨0, 1, 0, false, true⟩, ⟨0, 2, 1, false, false⟩, ⟨2, 3, 0, false, false⟩, ⟨3, 4, 0, false, false⟩,
-           ⟨5, 6, 0, false, false⟩, ⟨1, 3, 0, false, false⟩] }
+    es := [⟨0, 1, 0, false, true, []⟩, ⟨0, 2, 1, false, false, []⟩, ⟨2, 3, 0, false, false, []⟩, ⟨3, 4, 0, false, false, []⟩,
+           ⟨5, 6, 0, false, false, []⟩, ⟨1, 3, 0, false, false, []⟩] }
 
 /-- the two edges of an answer must lead to the same vertex (here: the by-passed Jump must go to the end label):
 `build_branches` takes the target of the FIRST edge as the end for both paths -/
